@@ -67,9 +67,11 @@ P = {
          "verifier length 43..128, method parameter; verifier and raw OIDC nonce opaque in everything shown to the browser "
          "- verifOpaque term walk under ideal crypto), vh_C05_nonce (checkNonce: nonce claim present, a string, "
          "hash-matching the session nonce unless skipped; converse), vh_C05_config_plumbing (configured "
-         "code-challenge method reaches ProviderData for every non-discovery provider type), vh_C03_flow_*: the session "
+         "code-challenge method reaches ProviderData for every non-discovery provider type), vh_C05_entra_nonce (the Entra ID "
+         "provider's tenant rule never replaces token verification and the nonce check), vh_C03_flow_*: the session "
          "handed to ValidateSession/Save carries the OIDC nonce whose hash was sent in this login's authorization request.",
-         "freshness/non-repetition of crypto/rand not decided (fresh symbols); the discovery branch of "
+         "freshness/non-repetition of crypto/rand not decided (fresh symbols of the requested length; a short-reading "
+         "Reader is outside the environment model); the discovery branch of "
          "newProviderDataFromConfig needs the network and is not executed"),
  'C06': ("vh_C06_abs (whitelist equals reference), vh_C06_rel (relative rule never yields a scheme-relative or schemed "
          "URL under the browser model; plain paths accepted), vh_C06_chain (GetRedirect returns '/' or a validated string, "
@@ -91,7 +93,8 @@ P = {
          "(failing session => 403 + cookie cleared), vh_C03_flow_single (callback saves only if validator and Authorize), "
          "vh_C20_usermap_reload (allow-list changes take effect), vh_C08_validator (the installed validator closure: "
          "domain rule OR allow-list file, '*', empty e-mail, case-insensitive), vh_C08_groups (ProviderData.Authorize = "
-         "allowed-groups intersection).",
+         "allowed-groups intersection), vh_C08_authonly_body (a relayed urlencoded request body never widens the auth-only "
+         "query constraints).",
          "domains '@'-free; ToLower ASCII; in the gate/flow harnesses validator and Authorize are arbitrary Booleans "
          "(their meaning is decided by the dedicated harnesses)"),
  'C09': ("vh_C09_window(_ns) (Validate window both directions), vh_C10_cookie_roundtrip and vh_C10_manager_roundtrip "
@@ -115,7 +118,9 @@ P = {
          "refreshed-and-saved or revalidated, validated session = session in force, new tokens in scope and in Save, lock "
          "released, save under lock; vh_C12_conc: op-traces of two (thorough: two or three) requests sharing a ticket "
          "composed under a symbolic scheduler (exactly one refresh, all served, newest tokens); vh_C12_redis_lock_obtain (redislock outcome "
-         "mapping).",
+         "mapping); vh_C12_oidc_refresh (OIDC refresh over an oauth2 token-endpoint stub: new access token, rotated refresh "
+         "token and - when one came back - the new ID token and identity are in the session; a failed refresh leaves "
+         "it untouched).",
          "2 (thorough 3) concurrent requests, a request finds the lock busy at most twice; lock timeout never fires (provider answers within the lock duration, as the property "
          "assumes)"),
  'C13': ("vh_C12_seq, vh_C01_gate_*, vh_C13_manager_save, vh_C10_manager_roundtrip, vh_C11_manager_clear, "
@@ -128,11 +133,16 @@ P = {
          "vh_C04_create_session/vh_C05_nonce/vh_C14_profile_failure (malformed or missing claims, verifier rejection, "
          "profile endpoint non-200/refused: error, no session), vh_C03_flow_single (redeem/enrich/validate failures => "
          "error page, no session), vh_C12_seq (refresh error and validator false => unauthenticated + Clear; validation "
-         "runs on the refreshed session).",
-         "token-endpoint HTTP decoding of the default provider's Redeem (oauth2 library) not harnessed"),
+         "runs on the refreshed session), vh_C14_redeem (default code redemption: JSON/urlencoded/non-200/refused/truncated "
+         "answers, missing or wrongly typed access_token), vh_C14_transport (the request helper's own do() over a "
+         "RoundTrip-level stub: refused connections and bodies cut short are errors), vh_C14_keycloak_roles (role claims "
+         "of every JSON shape through go-oidc's payload parsing and encoding/json's decoding rules), vh_C12_oidc_refresh.",
+         "the oauth2 library's own token-endpoint decoding is represented by its documented result; other "
+         "provider-specific API calls (GitHub, Google, GitLab, ...) are not harnessed"),
  'C15': ("vh_C15_routes (16 rules x every method/path/query), vh_C15_netset_single/_pair (NetSet.AddIPNet/Has/"
          "getNetMaps/ipNetMap.has + net.IP.To4/To16/Mask from stdlib SSA in bit-vector mode equal CIDR membership for "
-         "symbolic addresses and prefixes, all boundary prefix lengths, v4/v6/v4-mapped).",
+         "symbolic addresses and prefixes, all boundary prefix lengths, v4/v6/v4-mapped), vh_C15_clientip (with a real-client-IP "
+         "header configured the address is the parser's verdict, never the connection address).",
          "rules from a concrete grammar; ParseIP/ParseCIDR text parsing outside; IP.String injective model"),
  'C16': ("vh_C16_getters(_on), vh_C16_https, vh_C16_routes, vh_C16_redirect_pair, vh_C06_chain, vh_C18_make: "
          "non-interference by self-composition on every reader of X-Forwarded-*/real-client-IP headers with reverse-proxy "
@@ -145,7 +155,8 @@ P = {
          "method/headers untouched), vh_C17_mux (NewProxy with the real gorilla/mux executed from source: longest "
          "configured prefix wins, on the percent-encoded path when raw-path proxying is on), vh_C17_relay (the first-party "
          "response-writer wrapper relays every WriteHeader/Write/Flush of the upstream handler unchanged and in order, "
-         "1xx responses included).",
+         "1xx responses included), vh_C17_upstream_serve (exactly one of the plain/websocket proxies serves a request; the "
+         "websocket one only when enabled and on a handshake).",
          "httputil.ReverseProxy's transport, request bodies and file upstreams NOT decided (third-party machinery); the "
          "mux harness uses static-response upstreams"),
  'C18': ("vh_C18_make (MakeCookieFromOptions/GetCookieDomain), vh_C18_sort (validateCookie ordering composed with the "
